@@ -1,6 +1,8 @@
 package prefilter
 
 import (
+	"bytes"
+
 	"github.com/coregx/ahocorasick"
 	"github.com/coregx/coregex/literal"
 )
@@ -20,6 +22,10 @@ type AhoCorasickPrefilter struct {
 	ac       *ahocorasick.Automaton
 	complete bool
 	minLen   int
+	maxLen   int
+	// nested: some literal occurs inside another one (as a substring). Only then can
+	// the occurrence that ends first differ from the one that starts first.
+	nested bool
 }
 
 // newACPrefilter builds an Aho-Corasick prefilter from a literal sequence.
@@ -27,10 +33,14 @@ type AhoCorasickPrefilter struct {
 func newACPrefilter(seq *literal.Seq) Prefilter {
 	patterns := make([][]byte, seq.Len())
 	minLen := int(^uint(0) >> 1) // MaxInt
+	maxLen := 0
 	for i := 0; i < seq.Len(); i++ {
 		patterns[i] = seq.Get(i).Bytes
 		if len(patterns[i]) < minLen {
 			minLen = len(patterns[i])
+		}
+		if len(patterns[i]) > maxLen {
+			maxLen = len(patterns[i])
 		}
 	}
 
@@ -46,7 +56,24 @@ func newACPrefilter(seq *literal.Seq) Prefilter {
 		ac:       ac,
 		complete: seq.AllComplete(),
 		minLen:   minLen,
+		maxLen:   maxLen,
+		nested:   HasNestedLiteral(patterns),
 	}
+}
+
+// HasNestedLiteral reports whether one of the literals occurs inside another one (as a
+// proper substring, or twice in the list). For a set without nesting the occurrence
+// that ends first in a haystack is also the one that starts first, and at most one
+// literal occurs at any position.
+func HasNestedLiteral(lits [][]byte) bool {
+	for i, a := range lits {
+		for j, b := range lits {
+			if i != j && len(a) <= len(b) && bytes.Contains(b, a) {
+				return true
+			}
+		}
+	}
+	return false
 }
 
 // Find returns the position of the first matching literal at or after start.
@@ -57,6 +84,23 @@ func (p *AhoCorasickPrefilter) Find(haystack []byte, start int) int {
 	m, found := p.ac.Find(haystack, start)
 	if !found {
 		return -1
+	}
+	if !p.nested {
+		return m.Start
+	}
+	// The automaton reports the occurrence that ENDS first. When a literal occurs
+	// inside another one, an occurrence that starts earlier can end later (dqs inside
+	// rdqs1b), and a prefilter must not skip it. Every occurrence ends at or after
+	// m.End and is at most maxLen bytes long, so the leftmost one starts in
+	// [m.End-maxLen, m.Start]: probe these positions with anchored searches.
+	lo := m.End - p.maxLen
+	if lo < start {
+		lo = start
+	}
+	for pos := lo; pos < m.Start; pos++ {
+		if _, ok := p.ac.FindAt(haystack, pos); ok {
+			return pos
+		}
 	}
 	return m.Start
 }
